@@ -14,7 +14,7 @@ import random
 import re
 import sqlite3
 
-from .. import session, tlc
+from .. import session, session_check, tlc
 from ..tlc import MachineryError
 from pony.orm import core
 from pony.orm.core import Database, PrimaryKey, Required, Optional, Set
@@ -330,7 +330,10 @@ def run(ctx):
                 t['shape'], t['mode'] = shape, mode
             all_traces += traces
             for category, what, trace in found:
-                if category == 'crash':
+                if category == 'crash' and 'FOREIGN KEY constraint failed' in what and session_check.repointed_then_deleted(trace):
+                    # the recorded C16 finding (see harness/session_check.py): named by its history
+                    ctx.mismatch('C33:flush-order:repointed-dependent-deleted-after-its-old-parent', what, {'shape': shape, 'mode': mode, 'trace': trace})
+                elif category == 'crash':
                     ctx.mismatch('C33:%s:%s:crash:%s' % (shape, mode, what.split('\n')[0][:60]), what, {'shape': shape, 'mode': mode, 'trace': trace})
             for bad, evs in problems:
                 ctx.mismatch('C33:%s:%s:hook-edit-not-saved' % (shape, mode), bad, {'shape': shape, 'mode': mode, 'events': evs[-40:]})
